@@ -291,7 +291,7 @@ fn random_limits(rng: &mut Rng, n: usize) -> (Option<usize>, Option<usize>, usiz
 pub fn generate(ctx: &mut Ctx) {
     // ---- exhaustive: every graph on <= N vertices with unit weights x every 2-colouring
     //      with both colours used x a grid of limits
-    let maxn = if ctx.quick() { 4 } else { 5 };
+    //      (quick: 5 vertices only without limits, max_bad_move 0 and 1)
     let limits: [(Option<usize>, Option<usize>); 6] = [
         (None, None),
         (Some(1), None),
@@ -300,7 +300,8 @@ pub fn generate(ctx: &mut Ctx) {
         (None, Some(0)),
         (Some(2), Some(2)),
     ];
-    for n in 2..=maxn {
+    for n in 2..=5 {
+        let reduced = n == 5 && ctx.quick();
         let pairs: Vec<(usize, usize)> =
             (0..n).flat_map(|a| (a + 1..n).map(move |b| (a, b))).collect();
         for mask in 0u32..(1u32 << pairs.len()) {
@@ -313,10 +314,10 @@ pub fn generate(ctx: &mut Ctx) {
             let rows = from_edges(n, &edges);
             for col in 1u32..(1u32 << n) - 1 {
                 let ids: Vec<usize> = (0..n).map(|i| (col >> i & 1) as usize).collect();
-                for &(mp, mf) in &limits {
-                    for mb in 0..3 {
+                for &(mp, mf) in &limits[..if reduced { 1 } else { 6 }] {
+                    for mb in 0..if reduced { 2 } else { 3 } {
                         let c = Case { mp, mf, mb, wlen: n, ids: ids.clone(), rows: rows.clone() };
-                        ctx.count("exhaustive");
+                        ctx.count(&format!("exhaustive_n{}", n));
                         run_op(ctx, &format_op(&c));
                     }
                 }
@@ -324,13 +325,13 @@ pub fn generate(ctx: &mut Ctx) {
         }
     }
     ctx.notes.push(format!(
-        "exhaustive sub-space: all graphs on 2..={} vertices (unit weights) x all 2-colourings using both colours x 6 (max_passes, max_flips) settings x max_bad_move 0..=2",
-        maxn
+        "exhaustive sub-space: all graphs on 2..=5 vertices (unit weights) x all 2-colourings using both colours x 6 (max_passes, max_flips) settings x max_bad_move 0..=2{}",
+        if ctx.quick() { " (5 vertices: no limits, max_bad_move 0..=1 only)" } else { "" }
     ));
 
     // ---- random symmetric graphs
     let maxn = if ctx.quick() { 12 } else { 16 };
-    for _ in 0..ctx.budget(3000, 120_000) {
+    for _ in 0..ctx.budget(15_000, 200_000) {
         let (shape, rows) = random_graph(&mut ctx.rng, maxn);
         let n = rows.len();
         let (cshape, mut ids) = random_colouring(&mut ctx.rng, n);
@@ -361,7 +362,7 @@ pub fn generate(ctx: &mut Ctx) {
 
     // ---- outside the property's quantifier (the theorems kl_sizes / kl_cut_le still cover the
     //      first four, kl_unimplemented the label counts; the rest are the modelled panics)
-    for _ in 0..ctx.budget(400, 8000) {
+    for _ in 0..ctx.budget(1500, 15_000) {
         let (_, mut rows) = random_graph(&mut ctx.rng, 8);
         let n = rows.len();
         let (_, mut ids) = random_colouring(&mut ctx.rng, n);
@@ -452,6 +453,53 @@ pub fn generate(ctx: &mut Ctx) {
 
 // ------------------------------------------------------------------ running
 
+type Job = Box<dyn FnOnce() -> Ran + Send>;
+
+struct Worker {
+    jobs: std::sync::mpsc::Sender<Job>,
+    results: std::sync::mpsc::Receiver<Caught<Ran>>,
+}
+
+static WORKER: std::sync::Mutex<Option<Worker>> = std::sync::Mutex::new(None);
+
+fn spawn_worker() -> Worker {
+    let (jtx, jrx) = std::sync::mpsc::channel::<Job>();
+    let (rtx, rrx) = std::sync::mpsc::channel();
+    std::thread::Builder::new()
+        .stack_size(16 << 20)
+        .spawn(move || {
+            // the jobs run *inside* a small rayon pool, so that `edge_cut`'s par_iter does not
+            // have to wake the global pool from outside for every call
+            let pool = coupe::rayon::ThreadPoolBuilder::new().num_threads(2).build().expect("pool");
+            for job in jrx {
+                let r = pool.install(|| catch(job));
+                if rtx.send(r).is_err() {
+                    break;
+                }
+            }
+        })
+        .expect("spawn");
+    Worker { jobs: jtx, results: rrx }
+}
+
+/// `catch_timeout` without a thread per case: one long-lived worker; after a hang the worker
+/// is abandoned (it cannot be killed) and a fresh one serves the following cases.
+fn on_worker(secs: u64, f: impl FnOnce() -> Ran + Send + 'static) -> Caught<Ran> {
+    let mut g = WORKER.lock().unwrap_or_else(|e| e.into_inner());
+    let w = g.get_or_insert_with(spawn_worker);
+    if w.jobs.send(Box::new(f)).is_err() {
+        *g = None;
+        return Caught::Panic("worker thread died".into());
+    }
+    match w.results.recv_timeout(std::time::Duration::from_secs(secs)) {
+        Ok(r) => r,
+        Err(_) => {
+            *g = None;
+            Caught::Hang
+        }
+    }
+}
+
 type Ran = (Vec<usize>, f64, f64);
 
 /// Run the real `KernighanLin::partition`; returns (ids after, edge_cut before, edge_cut after)
@@ -481,7 +529,7 @@ fn run_impl(c: &Case) -> (Caught<Ran>, bool) {
     let ids0 = c.ids.clone();
     let weights = vec![1.0f64; c.wlen];
     let (mp, mf, mb) = (c.mp, c.mf, c.mb);
-    let r = catch_timeout(20, move || {
+    let r = on_worker(20, move || {
         let mut p = ids0.clone();
         coupe::KernighanLin {
             max_passes: mp,
